@@ -121,6 +121,7 @@ pub fn check(rep: &mut CaseReport, events: &[Event], view: &WireView, p: &Params
     // send side
     let mut accepted: u64 = 0;
     let mut first_tx_bytes: u64 = 0;
+    let mut unsent_at_peer_fin = false;
     let mut seen_data: BTreeSet<i64> = BTreeSet::new();
     let mut max_data_idx: i64 = -1;
     let mut my_fin: Option<(usize, Us, i64, bool)> = None; // (event idx, time, idx, own initiative)
@@ -151,6 +152,8 @@ pub fn check(rep: &mut CaseReport, events: &[Event], view: &WireView, p: &Params
                     let fi = peer_idx(pk.seq);
                     if peer_fin_accepted.is_none() && fi == contiguous + 1 {
                         peer_fin_accepted = Some((i, e.t, fi));
+                        // what was still to be transmitted for the first time at that moment
+                        unsent_at_peer_fin = first_tx_bytes < accepted;
                         stored.retain(|x| *x < fi);
                         contiguous = fi;
                         rep.counters.inc("c17_peer_fins_in_sequence");
@@ -333,7 +336,7 @@ pub fn check(rep: &mut CaseReport, events: &[Event], view: &WireView, p: &Params
     // (c) the endpoint's own FIN follows an in-sequence peer FIN (same step when nothing is unsent)
     if let Some((fi, ft, _)) = peer_fin_accepted {
         let alive = dead_at.as_ref().map(|(di, _, _)| *di > fi).unwrap_or(true);
-        let nothing_unsent = first_tx_bytes >= accepted;
+        let nothing_unsent = first_tx_bytes >= accepted && !unsent_at_peer_fin;
         if alive && nothing_unsent && reset_at.map(|(ri, _, _)| ri > fi).unwrap_or(true) {
             rep.counters.inc("c17_fin_answers_checked");
             match my_fin {
